@@ -196,23 +196,24 @@ Qed.
 
 (* ------------------------------------------------------------------ shape *)
 (* the text a fragment contributes to a string result *)
-Definition frag_text env rec (diff:bool) (chain:ctx) (stop:nat) (w:word) (f:fragment) : res str :=
+Definition frag_text env rec (diff:bool) (chain:ctx) (stop:nat) (w:word) (f:fragment) (nx:list fragment)
+  : res str :=
   match f with
   | FLit v => Ok v
-  | FVar v => do ws <- lookup_var env rec diff chain stop w v; Ok (vjoin_sp (map wv ws))
+  | FVar v => do ws <- lookup_var env rec diff chain stop w v (diff_text v nx); Ok (vjoin_sp (map wv ws))
   end.
 
 Lemma mapM_result_value : forall env rec diff chain stop w frs,
-  (do rs <- mapM (frag_result env rec diff chain stop w true) frs; mapM result_value rs)
-  = mapM (frag_text env rec diff chain stop w) frs.
+  (do rs <- mapM_tl (frag_result env rec diff chain stop w true) frs; mapM result_value rs)
+  = mapM_tl (frag_text env rec diff chain stop w) frs.
 Proof.
   intros env rec diff chain stop w frs. induction frs as [|f r IH]; [reflexivity|].
-  cbn [mapM]. destruct f as [v|v]; cbn [frag_result frag_text bind].
+  cbn [mapM_tl]. destruct f as [v|v]; cbn [frag_result frag_text bind].
   - rewrite <- IH.
-    destruct (mapM (frag_result env rec diff chain stop w true) r); cbn; reflexivity.
-  - destruct (lookup_var env rec diff chain stop w v) as [vws| |]; cbn [bind negb]; try reflexivity.
+    destruct (mapM_tl (frag_result env rec diff chain stop w true) r); cbn; reflexivity.
+  - destruct (lookup_var env rec diff chain stop w v (diff_text v r)) as [vws| |]; cbn [bind negb]; try reflexivity.
     rewrite <- IH.
-    destruct (mapM (frag_result env rec diff chain stop w true) r); cbn; reflexivity.
+    destruct (mapM_tl (frag_result env rec diff chain stop w true) r); cbn; reflexivity.
 Qed.
 
 Lemma existsb_single_var : forall frs,
@@ -227,10 +228,10 @@ Lemma resolve_word_shape : forall env rec diff chain stop w force frs,
   fragments_of_word w = Ok (force, true, frs) ->
   (force = false ->
      exists v, frs = [FVar v] /\ wq w = QN /\
-               resolve_word env rec diff chain stop w = lookup_var env rec diff chain stop w v)
+               resolve_word env rec diff chain stop w = lookup_var env rec diff chain stop w v (diff_text v []))
   /\ (force = true ->
      resolve_word env rec diff chain stop w =
-       do ts <- mapM (frag_text env rec diff chain stop w) frs; Ok [mkword (List.concat ts) Q2 0]).
+       do ts <- mapM_tl (frag_text env rec diff chain stop w) frs; Ok [mkword (List.concat ts) Q2 0]).
 Proof.
   intros env rec diff chain stop w force frs Hq Hf.
   pose proof (fragments_ok _ _ _ _ Hf) as [Hhave Hforce].
@@ -240,11 +241,11 @@ Proof.
     destruct (existsb_single_var frs (eq_sym Hhave) Hlen) as [v Hv]. subst frs.
     exists v. split; [reflexivity|]. split.
     { unfold isq in Hisq. destruct (wq w); try discriminate; reflexivity. }
-    unfold resolve_word. rewrite Hq1, Hf. cbn [bind mapM frag_result].
-    destruct (lookup_var env rec diff chain stop w v); reflexivity.
+    unfold resolve_word. rewrite Hq1, Hf. cbn [bind mapM_tl frag_result].
+    destruct (lookup_var env rec diff chain stop w v (diff_text v [])); reflexivity.
   - unfold resolve_word. rewrite Hq1, Hf. cbn [bind].
     rewrite <- mapM_result_value.
-    destruct (mapM (frag_result env rec diff chain stop w true) frs); reflexivity.
+    destruct (mapM_tl (frag_result env rec diff chain stop w true) frs); reflexivity.
 Qed.
 
 (* ------------------------------------------------------------------ lexical_get: basic facts *)
@@ -533,6 +534,14 @@ Proof.
   apply nofuel_bind; [apply IH; intros; apply H; right; assumption|]. intros; apply nofuel_ok.
 Qed.
 
+Lemma mapM_tl_nofuel : forall A B (f:A -> list A -> res B) l,
+  (forall a nx, nofuel (f a nx)) -> nofuel (mapM_tl f l).
+Proof.
+  intros A B f l H. induction l as [|a r IH]; [apply nofuel_ok|].
+  cbn [mapM_tl]. apply nofuel_bind; [apply H|]. intros b _.
+  apply nofuel_bind; [exact IH|]. intros; apply nofuel_ok.
+Qed.
+
 Lemma result_value_nofuel : forall r, nofuel (result_value r).
 Proof. intros [x|ws]; cbn; [apply nofuel_ok|apply nofuel_crash; cbv; discriminate]. Qed.
 
@@ -551,10 +560,10 @@ Section Fuel.
   Variable stop : nat.
   Hypothesis Hrec : forall ch o, wf_chain ch -> is_def o = true -> oid o < stop -> nofuel (rec ch o).
 
-  Lemma lookup_var_nofuel : forall diff chain w v,
-    wf_chain chain -> nofuel (lookup_var env rec diff chain stop w v).
+  Lemma lookup_var_nofuel : forall diff chain w v dt,
+    wf_chain chain -> nofuel (lookup_var env rec diff chain stop w v dt).
   Proof.
-    intros diff chain w v Hwf. unfold lookup_var.
+    intros diff chain w v dt Hwf. unfold lookup_var.
     apply nofuel_bind.
     { destruct chain; [apply nofuel_ok|]. apply lexical_get_fuel. lia. }
     intros src Hsrc. apply nofuel_bind.
@@ -565,7 +574,7 @@ Section Fuel.
       destruct (lexical_get_found_def _ _ _ _ _ _ _ Hwf Hsrc) as [Hw Hid].
       apply Hrec; [exact Hw|exact Ed|apply Hid; exact Ed].
     - intros [ws|] _; [apply nofuel_ok|].
-      destruct (if diff then Some ("$" :: v) else env v); [apply nofuel_ok|apply nofuel_uerr].
+      destruct (if diff then Some dt else env v); [apply nofuel_ok|apply nofuel_uerr].
   Qed.
 
   Lemma resolve_word_nofuel : forall diff chain w,
@@ -576,7 +585,7 @@ Section Fuel.
     apply nofuel_bind.
     { intro H. exact (fragments_no_crash _ _ H). }
     intros [[force have] frs] _. apply nofuel_bind; [|intros; apply get_new_words_nofuel].
-    apply mapM_nofuel. intros [v|v] _; cbn [frag_result]; [apply nofuel_ok|].
+    apply mapM_tl_nofuel. intros [v|v] nx; cbn [frag_result]; [apply nofuel_ok|].
     apply nofuel_bind; [apply lookup_var_nofuel; exact Hwf|].
     intros; destruct (negb force); apply nofuel_ok.
   Qed.
@@ -647,26 +656,26 @@ Qed.
 
 (* ------------------------------------------------------------------ environment *)
 (* a reference that is found lexically never looks at the environment (nor at diff_mode) *)
-Lemma lookup_var_found : forall env rec diff chain stop w v o ch c0 cr,
+Lemma lookup_var_found : forall env rec diff chain stop w v dt o ch c0 cr,
   chain = c0 :: cr ->
   lexical_get (S (length v)) stop chain v true = Ok (Some (o, ch)) ->
-  lookup_var env rec diff chain stop w v =
+  lookup_var env rec diff chain stop w v dt =
     if is_def o then rec ch o else UErr k_not_a_def v (wline w).
 Proof.
-  intros env rec diff chain stop w v o ch c0 cr Hc H. unfold lookup_var. subst chain.
+  intros env rec diff chain stop w v dt o ch c0 cr Hc H. unfold lookup_var. subst chain.
   rewrite H. cbn [bind]. destruct (is_def o); cbn [negb bind]; [|reflexivity].
   destruct (rec ch o); reflexivity.
 Qed.
 
-Lemma lookup_var_env_shadowed : forall env env' rec diff diff' chain stop w v o ch,
+Lemma lookup_var_env_shadowed : forall env env' rec diff diff' chain stop w v dt dt' o ch,
   chain <> [] ->
   lexical_get (S (length v)) stop chain v true = Ok (Some (o, ch)) ->
-  lookup_var env rec diff chain stop w v = lookup_var env' rec diff' chain stop w v.
+  lookup_var env rec diff chain stop w v dt = lookup_var env' rec diff' chain stop w v dt'.
 Proof.
-  intros env env' rec diff diff' chain stop w v o ch Hne H.
+  intros env env' rec diff diff' chain stop w v dt dt' o ch Hne H.
   destruct chain as [|c0 cr]; [congruence|].
-  rewrite (lookup_var_found env rec diff _ _ w v o ch c0 cr eq_refl H).
-  rewrite (lookup_var_found env' rec diff' _ _ w v o ch c0 cr eq_refl H). reflexivity.
+  rewrite (lookup_var_found env rec diff _ _ w v dt o ch c0 cr eq_refl H).
+  rewrite (lookup_var_found env' rec diff' _ _ w v dt' o ch c0 cr eq_refl H). reflexivity.
 Qed.
 
 (* whole resolution: if it succeeds with the empty environment, the environment is never consulted *)
@@ -677,11 +686,11 @@ Section EnvMono.
   Variables rec0 rec1 : ctx -> obj -> res (list word).
   Hypothesis Hrec : forall ch o ws, rec0 ch o = Ok ws -> rec1 ch o = Ok ws.
 
-  Lemma lookup_var_env_mono : forall diff chain stop w v ws,
-    lookup_var env0 rec0 false chain stop w v = Ok ws ->
-    lookup_var env rec1 diff chain stop w v = Ok ws.
+  Lemma lookup_var_env_mono : forall diff chain stop w v dt dt' ws,
+    lookup_var env0 rec0 false chain stop w v dt = Ok ws ->
+    lookup_var env rec1 diff chain stop w v dt' = Ok ws.
   Proof.
-    intros diff chain stop w v ws H. unfold lookup_var in *.
+    intros diff chain stop w v dt dt' ws H. unfold lookup_var in *.
     destruct (match chain with [] => Ok None | _ :: _ => lexical_get (S (length v)) stop chain v true end)
       as [[[o ch]|]| |]; cbn [bind] in *; try discriminate.
     - destruct (is_def o); cbn [negb bind] in *; [|discriminate].
@@ -690,16 +699,16 @@ Section EnvMono.
   Qed.
 
   Lemma mapM_frag_result_env_mono : forall diff chain stop w force frs rs,
-    mapM (frag_result env0 rec0 false chain stop w force) frs = Ok rs ->
-    mapM (frag_result env rec1 diff chain stop w force) frs = Ok rs.
+    mapM_tl (frag_result env0 rec0 false chain stop w force) frs = Ok rs ->
+    mapM_tl (frag_result env rec1 diff chain stop w force) frs = Ok rs.
   Proof.
     intros diff chain stop w force frs. induction frs as [|f r IH]; intros rs H; [exact H|].
-    cbn [mapM] in *. apply bind_ok in H. destruct H as [b [Hb H]].
+    cbn [mapM_tl] in *. apply bind_ok in H. destruct H as [b [Hb H]].
     apply bind_ok in H. destruct H as [bs [Hbs H]]. rewrite (IH _ Hbs).
     destruct f as [v|v]; cbn [frag_result] in *.
     - rewrite Hb. exact H.
     - apply bind_ok in Hb. destruct Hb as [vws [Hv Hb]].
-      rewrite (lookup_var_env_mono diff _ _ _ _ _ Hv). cbn [bind]. rewrite Hb. exact H.
+      rewrite (lookup_var_env_mono diff _ _ _ _ _ (diff_text v r) _ Hv). cbn [bind]. rewrite Hb. exact H.
   Qed.
 
   Lemma resolve_words_env_mono : forall diff chain stop ws out,
@@ -753,6 +762,16 @@ Proof.
     destruct (IH _ _ _ H) as [a' [Hin Ha]]. exists a'. split; [right; exact Hin|exact Ha].
 Qed.
 
+Lemma mapM_tl_uerr : forall A B (f:A -> list A -> res B) l k t ln,
+  mapM_tl f l = UErr k t ln -> exists a nx, In a l /\ f a nx = UErr k t ln.
+Proof.
+  intros A B f l. induction l as [|a r IH]; intros k t ln H; [discriminate|].
+  cbn [mapM_tl] in H. apply bind_uerr in H. destruct H as [H|[b [Hb H]]].
+  - exists a, r. split; [left; reflexivity|exact H].
+  - apply bind_uerr in H. destruct H as [H|[bs [_ H]]]; [|discriminate].
+    destruct (IH _ _ _ H) as [a' [nx [Hin Ha]]]. exists a', nx. split; [right; exact Hin|exact Ha].
+Qed.
+
 Lemma resolve_def_undefined : forall env f diff chain d v l,
   resolve_def env f diff chain d = UErr k_undefined v l -> undefined_witness env v l.
 Proof.
@@ -773,7 +792,7 @@ Proof.
       - destruct rs as [|[x|xs] rs']; discriminate.
       - apply bind_uerr in H. destruct H as [H|[vs [_ H]]]; [|discriminate].
         apply mapM_uerr in H. destruct H as [[x|xs] [_ H]]; discriminate. }
-  apply mapM_uerr in H. destruct H as [fr [Hin H]].
+  apply mapM_tl_uerr in H. destruct H as [fr [nx [Hin H]]].
   destruct fr as [lit|v']; cbn [frag_result] in H; [discriminate|].
   apply bind_uerr in H. destruct H as [H|[vws [_ H]]]; [|destruct (negb force); discriminate].
   unfold lookup_var in H.
